@@ -12,871 +12,584 @@ Definition show_fres (r : fres) : string :=
   end.
 Definition check (rs : list rune) : string := digest (show_fres (format_res rs)).
 Definition full (rs : list rune) : string := show_fres (format_res rs).
-Eval vm_compute in ("<<<M1726>>>" ++ check (runes_of_ascii "MetaData
-chars {int8
-
-    Z9_
-
-,  float	rootA
-
-`tab	here` 	 // @lengthOf(
-	  , 
-      //x
-		// @lengthOf(
-	  T
-
-o`it's`
-
-,
-	roots  int	,  // c
-    repeatCount MetaDataX
-	, float32
-	falsey `say ""hi""`, 
-}  packet
-msg_type
-	{  repeat	f32
-o  // `tick` ""quote"" 'q'
-	, @tag(
-
-0
-) 
-char[]A
-
-,repeat 
-char[] tag`say ""hi""`
-,	repeat char[
-
-0 ]
-	Z9_ ,
-
-    zchar[ 
-1
-	]  lengthOf
-	,
-
-    i64 
-T  , 
-match
-	float
-    as leftPad{ 
-007 :
-len/// triple
-    ,
-""it's"" : 
-len
-
-    , ""it's""  :// @lengthOf(
-		float[
-
-255	,
-00	,
-    ""abc"" , ""abc""
-,
-
-    1
-
-,
-	""" ++ [28040; 24687]%N ++ runes_of_ascii """ 	 // `tick` ""quote"" 'q'
-      ,
-
-""x y"" , """"  // a // b
-]  :	_x
-
-,	"""" 
-:len ,
-""\" ++ [233]%N ++ runes_of_ascii """
-	: // a // b
-
-i64_
-, //	t
-      }
-    , roots{ 
-char[1
-	] 	 // @lengthOf(
-  Header
-
-    @lengthOf(
-x_y_z ), 
-body
-u128 , 	 // `tick` ""quote"" 'q'
-  char[]
-float
-, chars
-
-@lengthOf( x
-
-    )
-`doc` ,
-
-} ,
-    crc`it's` 
-    // `tick` ""quote"" 'q'
-  ,
-    @calculatedFrom(	""" ++ [128512]%N ++ runes_of_ascii """ ) BodyLength 
-`" ++ [28040; 24687; 31867; 22411]%N ++ runes_of_ascii "` 
-,
-
-    } packet	u128
+Eval vm_compute in ("<<<M1354>>>" ++ check (runes_of_ascii "// top
+options // c0
 {
-
-lengthOf
-    ,	pack
-@lengthOf( u8x// c
-  )
-
-    `// not a comment`  // " ++ [27880; 37322]%N ++ runes_of_ascii "
-,@leftPad (' '
-	)float
-	{match
-asx  as
-
-charz{ 
-[ 
-4294967296  , """"
-    , 255,
-
-42
-,
-""1"" 
-] :u8x ""{,}"" :
-
-Foo 42 :
-leftPad [	// trailing space 
-255 
-, 
-	    // " ++ [128512]%N ++ runes_of_ascii " emoji
-
-""a\""b"" ,
-""it's"",
-4294967296
-	] :
-stringy
-,3
-:Header
-,} 
-,
-	match
-o// `tick` ""quote"" 'q'
-  as 
-Pad 
-    // trailing space 
-
-  {3	:
-    i64_	//x
-
-	, 
-} , repeat string msg_type ,
-	match packetx// " ++ [27880; 37322]%N ++ runes_of_ascii "
-as
-	lengthOf { 
-[""x y"" ,
-    """"
-	]
-:x_y_z 
-// " ++ [27880; 37322]%N ++ runes_of_ascii "
-
-  // c
-} ,
-
-} ,
-i64
-    float
-
-    , 
-repeat	zchar[ 3
-	]rootA  `crlf
-line`
-, 
-match
-	msg_type
-    as
-
-len { ""CRC32"" : MetaDataX  ,
-}	,f32
-
-A ,  char[ 
-0123456789
-
-]	chars	// " ++ [27880; 37322]%N ++ runes_of_ascii "
-	`{ , }`
-,/// triple
-
-@calculatedFrom(	""a\""b"")
-string	string_ `" ++ [233]%N ++ runes_of_ascii "`,
-}")).
-Eval vm_compute in ("<<<M1347>>>" ++ check (runes_of_ascii "// top
-options // c0a
-  // c0b
-{ // c1
-ArrayPrefixLenType
-    // c2
-=
-    // c3
-u64 // c4a
-  // c4b
-; // c5
-FixedStringPadFromLeft
-    // c6
-= true
-    // c8
-; // c9a
-  // c9b
-FixedStringPadChar // c10
-=
-    // c11
-'0'
-    // c12
-; }
-    // c14
-packet
-    // c15
-Quote // c16
-{ // c17a
-  // c17b
-} // c18a
-  // c18b
-packet // c19
-Ack // c20a
-  // c20b
-{ repeat // c22
-InNote66 { // c24a
-  // c24b
-u8 // c25a
-  // c25b
-pad0 // c26
-,
-    // c27
-} // c28
-, // c29
-} // c30
-packet
-    // c31
-Reject // c32a
-  // c32b
-{
-    // c33
-} // c34a
-  // c34b
-root // c35
-packet // c36a
-  // c36b
-Order
-    // c37
-{ // c38
-Quote // c39
-, repeat // c41
-Reject , // c43a
-  // c43b
-string
-    // c44
-venue
-    // c45
-, string
-    // c47
-seqNo // c48a
-  // c48b
-, // c49
-uint32
-    // c50
-Ref // c51a
-  // c51b
-, // c52a
-  // c52b
-u16 // c53a
-  // c53b
-lastPx
-    // c54
-,
-    // c55
-u32 // c56a
-  // c56b
-clOrdID // c57
-@lengthOf(
-    // c58
-Body ) // c60
-, // c61a
-  // c61b
-match
-    // c62
-lastPx // c63
-as // c64a
-  // c64b
-Body // c65a
-  // c65b
-{ 190 // c67
-: // c68a
-  // c68b
-Reject // c69
-,
-    // c70
-186 : // c72a
-  // c72b
-Quote ,
-    // c74
-22 :
-    // c76
-Ack
-    // c77
-, // c78
-} // c79
-,
-    // c80
-u16 // c81a
-  // c81b
-Flags // c82
-@calculatedFrom( // c83a
-  // c83b
-""CRC32"" ) , // c86
-} // c87a
-  // c87b
-")).
-Eval vm_compute in ("<<<M149>>>" ++ check (runes_of_ascii "// trailing space 
-packet
-    charz {	@calculatedFrom( ""1""
-)match x
-as tag
-    {	[
-7 , // @lengthOf(
-0
-, 65535	,
-    // `tick` ""quote"" 'q'
-    ""it's""/// triple
-,0
-    ,
-""x y"", 255 ] :tag  , [ ""1"" // a // b
-, //	t
-3  , 007, // " ++ [27880; 37322]%N ++ runes_of_ascii "
-255 ,  ""x y""
-    // @lengthOf(
-    ] :pack ,[""" ++ [233]%N ++ runes_of_ascii "t" ++ [233]%N ++ runes_of_ascii """	, 7  , 10  , 3
-, 0
-    , ""a\""b"" ] :
-    // packet A { u8 x, }
-    leftPad, [ 65535
-    // " ++ [27880; 37322]%N ++ runes_of_ascii "
-    ,
-""x y""]
-: chars [ ""\n"" ,65535 , ""a\\""
-] :
-A	, ""\n"" :
-    lengthOf , } ,
-match string_
-    as	i8i8 { 7 :msg_type , // c
-""abc"" :
-tag ,""a\""b"" :metadata, 255
-    : matchKey	,
-    [""CRC32"" ,""1""
-// " ++ [27880; 37322]%N ++ runes_of_ascii "
-// " ++ [128512]%N ++ runes_of_ascii " emoji
-, 007 , ""packet"" ,""a\\"" /// triple
-,	""a\""b""
-    // " ++ [128512]%N ++ runes_of_ascii " emoji
-    , 007 , 4294967296 ] : lengthOf , }
-,uint16
-pack , string Pad@lengthOf( o ) `say ""hi""` ,repeat i8 body
-    ,
-@lengthOf( //x
-crc ) float64 body `// not a comment`
-, repeat rootA { int16 x_y_z `tab	here` ,
-falsey @calculatedFrom( ""{,}"" ), trueish @lengthOf(
-crc) `{ , }` , }
-, match Pad as
-Header
-{
-    4294967296: Header,""\n"" :msg_type,""a	b"" :
-    x_y_z
-    , }
-,
-    //	t
-    Logon
-, } 	 ")).
-Eval vm_compute in ("<<<M1939>>>" ++ check (runes_of_ascii "
-
-  options{
-StringPrefixLenType
-
-    = 
-u64 ; 
-ArrayPrefixLenType =u32 ;
-FixedStringPadFromLeft	=false 
-;}
-packet  Party
-{
-
-zchar[
-
-7  ] OrderId
-
-    ,
-    InTail6
-	{
-
-repeat	char[ 1  ]
-
-msgKind ,  char[3
-	]Tail ,char[3  ] 
-Flags
-
-    ,	i16 tag7 
-, },
-    @rightPad
-
-(	'0' )char[
-12 
-]
-clOrdID,
-
-} packet
-
-    Quote  { @leftPad
-    (
-'0'
-    ) char[	11 ] price,
-repeat  InCount7	{ i32 x
-    ,	Party,	u8 Ref
-	, u8 tag7
-	,},char[] seqNo ,
-
-    Party ,	}
-packet  Logon
-	{ @rightPad
-    ('\x00' ) char[5]Note	,
-i16
-
-    sym
-
-    ,
-
-    InPrice72{
-	char[9 
-]
-
-Ref 
-, zchar[
-1  ]  venue 
-,  }
-,
-
-    char[]
-clOrdID, }root	packet Reject{
-
-    repeat
-	Logon
-    , @leftPad  (
-' '
-)	char[ 
-4
-	]
-
-    seqNo, 
-zchar[
-
-    5
-
-]
-
-Acct  ,  u32	x
-,
-u16	f1 @lengthOf( Body
-),	match x
-as Body
-
-{ [
-	169
-,
-74
-    ]:  Quote,
-    45 
-:
-	Party , 7
-
-    :
-
-    Logon,
-
-    }
-,
-	}")).
-Eval vm_compute in ("<<<M1619>>>" ++ check (runes_of_ascii "
-// top
-
-  packet 	 // c0
-  MDSnapshotZZ	// c1a
-  	// c1b
-    	{// c2
-u8
-    a 	 // c4
-		,	// c5a
-
-// c5b
-}  // c6
-	  packet
-	OrderACK	// c8
-	{// c9a
-    // c9b
-u16
-	b 	 // c11
-	, 
-    // c12
-    } 	 // c13a
-	// c13b
-packet
-	    // c14
-    	HTTPServerInfo
-
-    // c15
-    { 	 // c16
-		string
-s
-	// c18
-, 
-    // c19
-} 
-
-// c20
-root // c21a
-    // c21b
-
-  packet // c22
-FIXMsg  // c23
-    	{
-u8	// c25a
-      // c25b
-      KType 	 // c26a
-	// c26b
-, // c27a
-      // c27b
-  MDSnapshotZZ 
-
-    // c28
-	, // c29a
-
-	// c29b
-  repeat  
-      // c30
-  	OrderACK  , // c32a
-    // c32b
-
-match  // c33
-	KType  as// c35a
-    // c35b
-    Body  // c36
-    { 
-// c37
-1 :
-    // c39
-  HTTPServerInfo,
-2 // c42
-    : 
-// c43
-  OrderACK 
-      // c44
-  ,  }// c46a
-	// c46b
-	,
-    // c47
-	} 	 // c48a
-  	// c48b
-")).
-Eval vm_compute in ("<<<M1643>>>" ++ check (runes_of_ascii "
-options  {  StringPrefixLenType =u16 ;	ArrayPrefixLenType 
-=  u32
-	; FixedStringPadFromLeft
-=true
-;FixedStringPadChar
-
-=	'0' ; } packet 
-Cancel  { } packet 
-Party { }
-packet Logon {
-	}packet
-    Ack { }	packet
-
-    Logout
-
-    {repeat
-InSym87 { 
-InClordid94
-    { string
-    clOrdID ,} ,
-string Px ,
-	i16 Qty
-
-, repeat InCount71  {
-    repeat Cancel
-	, uint16 Tail
-,	char[
-
-2  ]x
-, repeat
-string  Ref,
-},  Cancel
-
-    ,
-
-}
-
-    ,
-
-    } root packet Order 
-{
-repeat 
-string tag7
-,
-
-@leftPad
-(
-    ' '  )
-char[
-	3 
-]  Px,
-	u8 Qty
-
-    , match Qty  as
-
-    Body{[
-    28,
-    62
-    ]
-:
-
-    Logon	,  148
-: Ack
-, 88
-: 
-Party	,
-	184
-
-:  Cancel
-	,
-    }, u16
-
-    Note
-	@calculatedFrom(
-""CR\
-C32""
-    )	,
-}
-
-")).
-Eval vm_compute in ("<<<M1120>>>" ++ check (runes_of_ascii "// top
-root
-    // c0
-packet
     // c1
-_x
-    // c2
-{
-    // c3
-match
-    // c4
-Foo
-    // c5
-as
+StringPrefixLenType = u16 ; // c5
+ArrayPrefixLenType
     // c6
-Z9_
-    // c7
-{
-    // c8
-""a	b""
+= // c7a
+  // c7b
+u32 ;
     // c9
-:
+FixedStringPadFromLeft
     // c10
-Pad
-    // c11
-,
-    // c12
-}
-    // c13
-,
-    // c14
-repeat
-    // c15
-x
-    // c16
-`line1
-line2`
-    // c17
-,
-    // c18
-@rightPad
-    // c19
-(
-    // c20
-' '
-    // c21
-)
-    // c22
-@calculatedFrom(
-    // c23
-""a\\""
-    // c24
-)
-    // c25
-metadata
-    // c26
-MetaDataX
-    // c27
-,
-    // c28
-@tag(
-    // c29
-0
-    // c30
-)
-    // c31
-Logon
-    // c32
-int
-    // c33
-``
-    // c34
-,
-    // c35
-}
-    // c36
-options
-    // c37
-{
-    // c38
-T
-    // c39
-=
-    // c40
-'\x00'
-    // c41
-}
-    // c42
-")).
-Eval vm_compute in ("<<<M1344>>>" ++ check (runes_of_ascii "options { 
-LittleEndian 
-=
-false;
-    ArrayPrefixLenType=  u8 ;
-
-    FixedStringPadFromLeft
-	= true
-
+= // c11
+true // c12a
+  // c12b
+; FixedStringPadChar = // c15a
+  // c15b
+'0' // c16a
+  // c16b
 ;
-    FixedStringPadChar
-= '0'; } packet Heartbeat{
-
-string
-
-    lastPx
-,  uint8
-Qty ,i64
-Acct , 
+    // c17
+} packet Cancel // c20
+{ // c21a
+  // c21b
+} // c22a
+  // c22b
+packet
+    // c23
+Party { }
+    // c26
+packet // c27a
+  // c27b
+Logon // c28
+{ } packet
+    // c31
+Ack // c32
+{ // c33a
+  // c33b
+} // c34
+packet // c35a
+  // c35b
+Logout // c36
+{ // c37a
+  // c37b
+repeat // c38
+InSym87
+    // c39
+{ // c40a
+  // c40b
+InClordid94 // c41
+{
+    // c42
+string // c43a
+  // c43b
+clOrdID ,
+    // c45
+} ,
+    // c47
+string // c48a
+  // c48b
+Px // c49
+, i16 // c51a
+  // c51b
+Qty
+    // c52
+, // c53
+repeat
+    // c54
+InCount71 { repeat // c57a
+  // c57b
+Cancel
+    // c58
+,
+    // c59
+uint16 // c60
+Tail
+    // c61
+,
+    // c62
 char[
-4
-]
-    Ref,
-
-    }  packet Fill	{
-
-    uint8
-Ref ,
-
-Heartbeat	,
-	f32 OrderId
-
-, repeat
-	f32
-x , 
+    // c63
+2 // c64a
+  // c64b
+] // c65
+x , // c67a
+  // c67b
+repeat
+    // c68
+string // c69
+Ref // c70a
+  // c70b
+, // c71
+} , Cancel , // c75a
+  // c75b
 }
-root packet
-
-Order {zchar[	2
-    ]  OrderId ,
-    zchar[
-2
-    ] Acct
-,zchar[ 
-1
-]Note,
-zchar[ 9]
-
-    Qty
-,
-string  price 
-,	string tag7
-
-    ,u32
-x ,match 
-x as
-
-    Body	{
-123
-:	Fill 
-,
-
-112:
-
-    Heartbeat,
-}
-
-    ,
-
-u32 seqNo@calculatedFrom(
-	""CRC32"")
-	,	}
-")).
-Eval vm_compute in ("<<<M296>>>" ++ check (runes_of_ascii "MetaData u128
-{  zchar[ 3 ] matchKey	`crlf
-line` //
-, } // packet A { u8 x, }
-options
-{ //x
-} root	packet rootA
-    { @calculatedFrom(
-    ""{,}"" ) repeat u16 len ,repeat body,i8i8 @lengthOf( packetx),metadata int `line1
-line2` ,  uint8x `two words` // c
-, int16 //
-x_y_z
-, repeatCount , Logon {  repeat// trailing space 
-i8 Packet `line1
-line2`
-, } ,}
-options
-{// " ++ [128512]%N ++ runes_of_ascii " emoji
-lengthOf
-//
-// trailing space 
-= ' ' ;
-i64_ = ""{,}"" ; msg_type
-= '0'
-; u=
-// packet A { u8 x, }
-// " ++ [27880; 37322]%N ++ runes_of_ascii "
-i32;_x = ""abc""
-    // packet A { u8 x, }
-    ; }
-")).
-Eval vm_compute in ("<<<M1919>>>" ++ check (runes_of_ascii "//	t
-packet u8x {
-    u8x {
-        body @calculatedFrom(""`tick`"") `say ""hi""`,
-        match a1 as asx {
-            //	t
-            0 : asx,
+    // c76
+, }
+    // c78
+root // c79
+packet // c80a
+  // c80b
+Order // c81a
+  // c81b
+{ // c82
+repeat // c83a
+  // c83b
+string
+    // c84
+tag7
+    // c85
+, @leftPad // c87
+( // c88a
+  // c88b
+' ' ) // c90
+char[ 3 ]
+    // c93
+Px
+    // c94
+, // c95a
+  // c95b
+u8
+    // c96
+Qty ,
+    // c98
+match Qty as // c101a
+  // c101b
+Body { [ // c104a
+  // c104b
+28 // c105a
+  // c105b
+, // c106
+62 // c107
+] // c108
+:
+    // c109
+Logon
+    // c110
+, // c111a
+  // c111b
+148 // c112
+: // c113a
+  // c113b
+Ack
+    // c114
+, // c115a
+  // c115b
+88
+    // c116
+: Party // c118a
+  // c118b
+, // c119
+184 // c120a
+  // c120b
+: Cancel // c122a
+  // c122b
+, // c123
+} // c124
+, // c125a
+  // c125b
+u16
+    // c126
+Note // c127
+@calculatedFrom( ""CRC32"" // c129
+) // c130
+, // c131
+} ")).
+Eval vm_compute in ("<<<M1869>>>" ++ check (runes_of_ascii "root packet crc {
+    uint32 repeatCount @lengthOf(MetaDataX) `say ""hi""`,
+    @tag(65535)
+    A {
+        u128,
+        u8x {
+            repeatCount @lengthOf(As),// packet A { u8 x, }
+            i32 _x @calculatedFrom(""" ++ [128512]%N ++ runes_of_ascii """),
         },
     },
-    @rightPad()
-    match Logon as x {
-        [
-            00, ""// no comment"", ""a\\"",
-            0123456789, 4294967296
-        ] : crc,
-        00 : options1,
-        // " ++ [27880; 37322]%N ++ runes_of_ascii "
-        42 : i8i8,
-        0 : o,
-        0123456789 : body,
+    @lengthOf(As)
+    @tag(0)
+    @tag(4294967296)
+    string metadata,
+    string lengthOf @lengthOf(f32a),
+    @tag(3)
+    string packetx,
+    @lengthOf(Pad)
+    @lengthOf(packetx)
+    BodyLength @calculatedFrom(""a	b""),
+    repeat u8x {
+        zchar[3] tag `doc`,
+        match As as leftPad {
+            [10, 3, 7, ""abc"", 42] : A,
+        },
+        match Header as falsey {
+            42 : msg_type,
+            00 : A,
+            1 : charz,
+            ""// no comment"" : int,
+            0123456789 : chars,
+            4294967296 : x,
+        },
     },
-    @tag(7)
-    float @lengthOf(stringy) `" ++ [233]%N ++ runes_of_ascii "`,
-    u @lengthOf(msg_type),
+    @tag(10)
+    @tag(007)
+    @calculatedFrom(""`tick`"")
+    i8i8 @lengthOf(charz),
+    char[7] Header,
+}
+
+packet lengthOf {
+    match metadata as asx {
+        7 : float,
+        // " ++ [128512]%N ++ runes_of_ascii " emoji
+        """ ++ [233]%N ++ runes_of_ascii "t" ++ [233]%N ++ runes_of_ascii """ : stringy,
+        """ ++ [28040; 24687]%N ++ runes_of_ascii """ : BodyLength,
+        7 : leftPad,
+    },
+    @lengthOf(MetaDataX)
+    repeat zchar[7] float,
+    @tag(0)
+    matchKey @calculatedFrom(""packet""),
+}
+
+packet Pad {
+    options1 @lengthOf(rootA),
+}
+
+root packet BodyLength {
+    string uint8x @lengthOf(Z9_),
+}// c")).
+Eval vm_compute in ("<<<M134>>>" ++ check (runes_of_ascii "packet // " ++ [128512]%N ++ runes_of_ascii " emoji
+x{
+    //x
+    lengthOf @calculatedFrom(""abc"")
+`u8 x,`
+    ,
+@rightPad( )
+//x
+// @lengthOf(
+float32 Packet @lengthOf( falsey ) ,	char[ 10] falsey , @tag( 3  ) repeat zchar[
+    4294967296 ] repeatCount ,repeatCount`say ""hi""` , int16 u128 // `tick` ""quote"" 'q'
+,
+char[ 3
+] crc
+@calculatedFrom( ""x y"" )
+, // trailing space 
+@leftPad
+    (
+    // " ++ [27880; 37322]%N ++ runes_of_ascii "
+    '\x00' )	match chars as i8i8 {
+    42 : charz// trailing space 
+,}
+, }  options {	} MetaData metadata { char[ 4294967296 ] i8i8	,
+    float
+    rootA , i64
+    packetx // " ++ [27880; 37322]%N ++ runes_of_ascii "
+, i8 // " ++ [27880; 37322]%N ++ runes_of_ascii "
+roots `crlf
+line`
+    ,
+    tag i64_  , uint8 Pad `" ++ [233]%N ++ runes_of_ascii "`
+, }root packet Header{
+u64 options1  `two words`
+    , @calculatedFrom(""a\\"" // trailing space 
+) // " ++ [128512]%N ++ runes_of_ascii " emoji
+i32 //	t
+x_y_z	@calculatedFrom( ""a\""b"")`tab	here` , match
+A as len { [ ""CRC32"" // " ++ [128512]%N ++ runes_of_ascii " emoji
+,""it's""  ] //	t
+: Z9_ ""a	b"" :
+    o ,
+} , match asx
+as pack {0 :	x_y_z , }
+    , char[] i64_ `{ , }`
+,
+    }
+MetaData stringy
+{ // trailing space 
+lengthOf
+// `tick` ""quote"" 'q'
+//	t
+o, string//
+u8x , f32 string_ `doc` ,}
+")).
+Eval vm_compute in ("<<<M17>>>" ++ check (runes_of_ascii "
+MetaData
+    x{ len
+    crc , float
+    // " ++ [128512]%N ++ runes_of_ascii " emoji
+    asx, i32 uint8x`line1
+line2` ,u16
+tag
+// `tick` ""quote"" 'q'
+//x
+`it's` , As string_
+    ,
+}
+packet metadata {@lengthOf(zchar )// c
+i64_ @calculatedFrom(
+""\" ++ [233]%N ++ runes_of_ascii """	) , //x
+@leftPad
+    ( '\x00' ) zchar[ 10
+] zchar
+    ,
+    lengthOf //x
+string_ ,int @lengthOf( pack
+    ),
+    zchar[ 00 ]
+    Foo , @lengthOf( packetx )
+    @leftPad (
+'\x00'// " ++ [27880; 37322]%N ++ runes_of_ascii "
+) @calculatedFrom(
+    // @lengthOf(
+    ""x y"" )uint16
+len@calculatedFrom( """" )
+`two words` , int8
+    metadata @lengthOf( Foo )`two words`	, // @lengthOf(
+}options
+{ }
+packet
+pack{
+// `tick` ""quote"" 'q'
+//
+f64
+    o , T BodyLength  ,
+    repeat
+    uint8 chars  `" ++ [233]%N ++ runes_of_ascii "`
+    ,repeat
+    // c
+    Logon
+u
+    // " ++ [128512]%N ++ runes_of_ascii " emoji
+    ,@tag(
+    0123456789 )
+char[] repeatCount @lengthOf(// " ++ [27880; 37322]%N ++ runes_of_ascii "
+_x )
+    // c
+    `
+` ,//
+@tag(
+// packet A { u8 x, }
+/// triple
+7 )  repeatCount @calculatedFrom(""packet"" ) `{ , }` , }")).
+Eval vm_compute in ("<<<M371>>>" ++ check (runes_of_ascii "root
+    packet
+packetx
+    {
+    @tag( 0) char[00 ] Z9_
+    ,
+    // a // b
+    falsey
+    // c
+    { match
+    x as options1 { [//	t
+42 ,
+    007 ]:
+    uint8x } , uint8 falsey `crlf
+line` , }
+, f64 Pad
+, @tag(7  ) string Logon// " ++ [27880; 37322]%N ++ runes_of_ascii "
+`a\`, @lengthOf(
+lengthOf//	t
+) char[
+3
+    ]
+// " ++ [27880; 37322]%N ++ runes_of_ascii "
+//
+calculatedFrom @calculatedFrom(
+""" ++ [28040; 24687]%N ++ runes_of_ascii """
+)
+, char[]
+    T , //x
+@tag(
+42 ) @leftPad ( )
+    char[]trueish
+@calculatedFrom(""`tick`"" ) ,match
+    // `tick` ""quote"" 'q'
+    uint8x as pack { [
+    ""abc"",
+    ""1"" ,""packet""
+,
+// `tick` ""quote"" 'q'
+// `tick` ""quote"" 'q'
+1,
+    ""a\""b""]: As	, """ ++ [28040; 24687]%N ++ runes_of_ascii """ :
+    trueish ,} ,
+}
+packet/// triple
+charz
+{
+    repeat
+Z9_ { Pad  {match len as string_{
+    // a // b
+    4294967296
+    : msg_type , [""// no comment""
+    ] :u
+    ,
+} ,} , zchar[
+    65535
+] As  @lengthOf(//x
+string_
+)
+,
+} ,
+    }")).
+Eval vm_compute in ("<<<M312>>>" ++ check (runes_of_ascii "packet // packet A { u8 x, }
+tag
+    { @calculatedFrom(""x y"" ) lengthOf{ options1
+    `
+`,} , @tag( 7 )
+int {
+//x
+// " ++ [27880; 37322]%N ++ runes_of_ascii "
+char[ 007  ] // `tick` ""quote"" 'q'
+calculatedFrom @lengthOf(
+metadata
+)  , tag @lengthOf( falsey
+) ,	f32
+    // " ++ [128512]%N ++ runes_of_ascii " emoji
+    calculatedFrom
+// `tick` ""quote"" 'q'
+//
+`{ , }` , i8i8
+    {string
+    i64_ @lengthOf( asx )	`it's` , u @calculatedFrom(  ""\n"" ) ,
+    } ,	}
+    ,
+    @calculatedFrom(""abc"" //
+)  @leftPad ( ' '
+    )  uint64 calculatedFrom
+,// " ++ [27880; 37322]%N ++ runes_of_ascii "
+} packet o { Header ,
+    @lengthOf(	i8i8
+) float32
+    Pad // c
+,char[ 42 ]
+leftPad
+    @calculatedFrom(	"""" // " ++ [128512]%N ++ runes_of_ascii " emoji
+)
+    , @tag( 255 )
+body
+    u , } packet lengthOf{
+// packet A { u8 x, }
+// c
+@tag(
+    255 //x
+) char[ 0123456789 ] o
+`
+` , }
+
+")).
+Eval vm_compute in ("<<<M1924>>>" ++ check (runes_of_ascii "options {
+    // c1a
+    // c1b
+    LittleEndian = true;
+    // c5
+    StringPrefixLenType = u64;
+    // c9
+    ArrayPrefixLenType = u16;// c13a
+    // c13b
+    FixedStringPadFromLeft = false;
+    FixedStringPadChar = ' ';
+    // c21
+}
+
+packet Logon {
+    // c25
+    zchar[5] Side2,// c30
+}
+
+root packet Logout {
+    // c35
+    repeat i64 Tail,// c39
+    Logon,// c41
+    repeat i16 OrderId,// c45
+    char[] venue,
+    uint64 x,
+    // c51
+    repeat i16 count,
+    u8 Flags,
+    match Flags as Body {
+        25 : Logon,
+        // c67a
+        // c67b
+    },// c69a
+    // c69b
+    u16 Qty @calculatedFrom(""CRC32""),// c75a
+    // c75b
+}
+// c76")).
+Eval vm_compute in ("<<<M305>>>" ++ check (runes_of_ascii "packet
+pack{ u8 x ,
+char[
+    255 ]trueish
+@calculatedFrom(
+""// no comment"" ) `tab	here`,	@lengthOf( asx) repeat //
+zchar[
+0
+] stringy `
+`, @leftPad( '0' ) @calculatedFrom( // trailing space 
+""abc"" )
+    @calculatedFrom( ""it's""
+) char[] packetx@calculatedFrom( ""a	b"" ) `doc` , repeat string len
+    `two words`
+, uint16 matchKey
+    @lengthOf(
+    asx ) ,zchar[ 0 ]
+x `it's` // trailing space 
+, }
+    packet packetx {body  , string trueish `" ++ [233]%N ++ runes_of_ascii "` , @tag(255 )
+@tag(
+3
+// packet A { u8 x, }
+//	t
+) @calculatedFrom(
+    ""\n"" ) repeat f64 roots// trailing space 
+`" ++ [233]%N ++ runes_of_ascii "`	, /// triple
+} 	 ")).
+Eval vm_compute in ("<<<M1686>>>" ++ check (runes_of_ascii "options {
+    StringPrefixLenType = u8;
+    ArrayPrefixLenType = u8;
+    FixedStringPadFromLeft = false;
+    FixedStringPadChar = ' ';
+}
+
+packet Ack {
+    char[] tag7,
+}
+
+packet Reject {
+    InSym61 {
+        repeat Ack,
+        zchar[4] f1,
+    },
+}
+
+packet Logout {
+    char[4] clOrdID,
+}
+
+root packet Cancel {
+    @leftPad(' ')
+    char[10] price,
+    u8 x,
+    u32 venue @lengthOf(Body),
+    match x as Body {
+        [92, 175] : Logout,
+        26 : Reject,
+        144 : Ack,
+    },
+    u16 count @calculatedFrom(""CRC32""),
 }")).
+Eval vm_compute in ("<<<M334>>>" ++ check (runes_of_ascii "MetaData pack {
+int16 rootA `{ , }` ,
+    //	t
+    int16 // c
+x,// " ++ [27880; 37322]%N ++ runes_of_ascii "
+u32 msg_type,
+    }
+packet i64_
+    {// trailing space 
+@leftPad
+    ( '0') @rightPad ( '\x00' // packet A { u8 x, }
+)
+@lengthOf(options1	)
+    string body @lengthOf( asx) `" ++ [233]%N ++ runes_of_ascii "` ,
+    }
+options { msg_type
+    //	t
+    = 00//
+;} MetaData
+    stringy// c
+{
+    zchar MetaDataX `line1
+line2` , char[255] len `it's` , f32 pack ,
+    uint16 Foo
+`it's` , int16 i64_`two words` ,
+    // `tick` ""quote"" 'q'
+    }")).
 Eval vm_compute in ("<<<M1374>>>" ++ check (runes_of_ascii "
 
   options
@@ -927,220 +640,194 @@ Qty
     @calculatedFrom( ""CRC32""
 )	,	}
 ")).
-Eval vm_compute in ("<<<M101>>>" ++ check (runes_of_ascii "MetaData T {  a1 Packet,// " ++ [128512]%N ++ runes_of_ascii " emoji
-uint8x
-// @lengthOf(
-//x
-Pad `" ++ [233]%N ++ runes_of_ascii "` , a1
-    // " ++ [27880; 37322]%N ++ runes_of_ascii "
-    MetaDataX ,	zchar[00]metadata`u8 x,` ,Pad// trailing space 
-x `
-` ,
-    i8
-u8x ,
-}  options { As =
-    false;}root packet options1 { @calculatedFrom( ""// no comment"" ) @lengthOf( _x	)
-    @tag(007 ) repeat
-// trailing space 
-// @lengthOf(
-f32 i8i8
-    `" ++ [233]%N ++ runes_of_ascii "` ,
-    @rightPad	( ' '// " ++ [27880; 37322]%N ++ runes_of_ascii "
-) repeat Pad , }
-")).
-Eval vm_compute in ("<<<M1572>>>" ++ check (runes_of_ascii "// top
-options {
-    // c1
-    zchar = true;
-    // c5
-    Pad = char[00]
-    // c10
-    a1 = uint32
-    // c13
-    BodyLength = true;
-    // c17
-}
+Eval vm_compute in ("<<<M1673>>>" ++ check (runes_of_ascii "
+packet int
 
-// c18
-root packet T {
-    // c22
-    @lengthOf(repeatCount)
-    // c25
-    @tag(1)
-    // c28
-    @calculatedFrom(""a	b"")
-    // c31
-    string stringy @calculatedFrom(""\n"") `u8 x,`,
-    // c38
-}
-// c39")).
-Eval vm_compute in ("<<<M1475>>>" ++ check (runes_of_ascii "// `tick` ""quote"" 'q'
-options {
-}
-
-packet lengthOf {
-}
-
-packet Foo {
-    @tag(1)
-    string uint8x,
-    _x {
-        chars,
-        string uint8x,
-        i64 _x `it's`,
-        repeat uint8 As,
-    },
-    float32 f32a,
-    @leftPad('\x00')
-    @calculatedFrom(""" ++ [28040; 24687]%N ++ runes_of_ascii """)
-    // trailing space 
-    uint8 Logon,
-}")).
-Eval vm_compute in ("<<<M1316>>>" ++ check (runes_of_ascii "  packet
-
-    MDSnapshotZZ	{	u8
-
-a 
-, }  packet
-    OrderACK  { u16
-b, }packet
-	HTTPServerInfo	{
-string
-s
+{
+	T/// triple
+	{	repeat
+_x ,	}	,
+i64_
+_x
+	`
+`
+    ,  @calculatedFrom( 
+""x y""
+	) u32	A
 
     ,
-}	root
-    packet  FIXMsg
-    { u8
-KType
-,MDSnapshotZZ  , repeat
+match
+a1  as
+i8i8
 
-    OrderACK,  match 
-KType as Body{1 :
+{	[
 
-HTTPServerInfo  ,	2
-
-:OrderACK	,
-
-}
-
-    ,}")).
-Eval vm_compute in ("<<<M1921>>>" ++ check (runes_of_ascii "
-root packet string_ 
-{@leftPad
-	( ' '  ) chars {
-repeat zchar[
-
-    0	]
-
-    tag ,
-
-    string	falsey ,// " ++ [128512]%N ++ runes_of_ascii " emoji
-	  repeat
-    char[
-	007  ]
-    body	`two words`
-	,
-
-}
-,
-@calculatedFrom(
-""// no comment"" ) Foo
-	T
-    ,// " ++ [128512]%N ++ runes_of_ascii " emoji
-}
-")).
-Eval vm_compute in ("<<<M21>>>" ++ check (runes_of_ascii "packet  Logon //	t
-{pack	_x
-    ,
-Z9_ i8i8  `" ++ [28040; 24687; 31867; 22411]%N ++ runes_of_ascii "`	, } options
-    { tag	= 4294967296 ; As = string
-    ; rootA = true ; }root packet f32a { //x
-@leftPad
-// " ++ [27880; 37322]%N ++ runes_of_ascii "
-// c
-(' ') repeat _x`" ++ [233]%N ++ runes_of_ascii "`	, @rightPad ( )i8i8 len,}
-
-")).
-Eval vm_compute in ("<<<M1931>>>" ++ check (runes_of_ascii "packet A {
-    Inner {
-        match k as n {
-            [
-                1, 22, 007, 4, 5,
-                66, 7, 8, 9, 10,
-                11
-            ] : B,
-        },
-    },
-}")).
-Eval vm_compute in ("<<<M1875>>>" ++ check (runes_of_ascii "packet A {
-    match k as n {
-        [
-            ""a"", 22, ""c c"", 4, ""e"",
-            66, ""g"", 8, ""i"", 10,
-            ""k""
-        ] : B,
-        2 : C,
-    },
-}")).
-Eval vm_compute in ("<<<M1744>>>" ++ check (runes_of_ascii "packet
-	A  { 
-match 
-k
-	as
-    n
-    {	[  1
-,
-	""bb"" , 007
-,
-""d""
-
-    ,
-5,  ""f""
-    ,
-	7,
-    ""h"" ,
-    9,
-
-""j""
-, 11
+    ""1"" 
+, 4294967296 
 ]
+    : a1 , """"
 
-    : B
-,  2	:
-    C
-}
-,
-    }
-
-")).
-Eval vm_compute in ("<<<M1272>>>" ++ check (runes_of_ascii "
-options{
-LittleEndian=
-
-true; } packet
-	B	{
-u8 a
-
+    : a1 
+,007:
+	a1
     ,
-string  s, 
-}	root
+[
+    ""CRC32""
 
+    ]
+
+    :	Header }
+,
+
+    int64  As 
+,
+int8
+
+    a1
+	,//
+    char[]
+	float `tab	here` /// triple
+, repeat 
+zchar[ 1
+
+    ]u8x	,
+	}	/// triple
+")).
+Eval vm_compute in ("<<<M77>>>" ++ check (runes_of_ascii "
+packet	float { char[ 42] int`say ""hi""` , @tag( 255// packet A { u8 x, }
+) match// a // b
+stringy  as
+    x { [ 00 ,42
+]: i64_ 42 : matchKey , [ ""1"" , 1
+, 42
+    ,
+""" ++ [28040; 24687]%N ++ runes_of_ascii """ , ""abc"" ,
+// a // b
+//x
+1 // trailing space 
+]
+: //
+roots
+,
+    65535
+: trueish ,	} ,@calculatedFrom( ""{,}"" )body @calculatedFrom(""" ++ [28040; 24687]%N ++ runes_of_ascii """ ) , zchar[
+    007 ] lengthOf, }
+")).
+Eval vm_compute in ("<<<M1268>>>" ++ check (runes_of_ascii "// top
 packet
-
-P
-
-{ u16
-    L
-    @lengthOf(
-
-    B
+    // c0
+B
+    // c1
+{ // c2
+u8
+    // c3
+a // c4
+, string // c6
+s
+    // c7
+, } root // c10
+packet
+    // c11
+P // c12a
+  // c12b
+{
+    // c13
+u16
+    // c14
+L // c15a
+  // c15b
+@lengthOf( B
+    // c17
 )
+    // c18
 ,
-B,
-    u8
-t ,  }")).
-Eval vm_compute in ("<<<M541>>>" ++ check (runes_of_ascii "packet uint8x
+    // c19
+B
+    // c20
+, u8 // c22a
+  // c22b
+t
+    // c23
+, // c24
+} ")).
+Eval vm_compute in ("<<<M1676>>>" ++ check (runes_of_ascii "options {
+    A = i16;
+}
+
+/// triple
+root packet rootA {
+    @tag(7)
+    int16 pack,
+    Logon @calculatedFrom(""a\""b"") `{ , }`,
+    @rightPad('\x00')
+    //
+    //
+    char[7] options1 `tab	here`,
+    @calculatedFrom(""" ++ [233]%N ++ runes_of_ascii "t" ++ [233]%N ++ runes_of_ascii """)
+    int @lengthOf(Packet) `crlf
+    line`,
+}")).
+Eval vm_compute in ("<<<M1615>>>" ++ check (runes_of_ascii "packet body {
+    @lengthOf(T)
+    @lengthOf(int)
+    @leftPad('\x00')
+    asx len,
+    repeat zchar[3] int `" ++ [28040; 24687; 31867; 22411]%N ++ runes_of_ascii "`,
+    @lengthOf(options1)
+    match x as leftPad {
+        7 : x_y_z,
+        65535 : u128,
+        42 : x,
+    },//
+}")).
+Eval vm_compute in ("<<<M1326>>>" ++ check (runes_of_ascii "packet Logon {
+    string user,
+}
+root packet Frame {
+    u8 K,
+    match K as Body {
+        1 : Logon,
+        2 : Logout,
+    },
+    Tail,
+}
+packet Logout {
+    u16 reason,
+}
+packet Tail {
+    u32 crc,
+}
+")).
+Eval vm_compute in ("<<<M186>>>" ++ check (runes_of_ascii "root packet packetx	{	char[ 1 ]chars @calculatedFrom(
+""packet"" ) `say ""hi""` ,} options
+    // trailing space 
+    { asx
+    // a // b
+    = 65535 u = float64 repeatCount  =""\" ++ [233]%N ++ runes_of_ascii """}
+")).
+Eval vm_compute in ("<<<M431>>>" ++ check (runes_of_ascii "packet uint8x
+{ match pack
+    as msg_type	{
+    0123456789 0123456789 :	float
+}
+,
+} packet //	t
+a1
+    { } options {packetx
+    = '\x00'	; u128= ""a	b""  ; }
+")).
+Eval vm_compute in ("<<<M458>>>" ++ check (runes_of_ascii "packet uint8x
+{ match pack
+    as msg_type	{
+    0123456789 :	float
+}
+,
+char[] packet //	t
+a1
+    { } options {packetx
+    = '\x00'	; u128= ""a	b""  ; }
+")).
+Eval vm_compute in ("<<<M476>>>" ++ check (runes_of_ascii "packet uint8x
 { match pack
     as msg_type	{
     0123456789 :	float
@@ -1148,11 +835,11 @@ Eval vm_compute in ("<<<M541>>>" ++ check (runes_of_ascii "packet uint8x
 ,
 } packet //	t
 a1
-    { } options {packetx
-    = '\x0" ++ [233]%N ++ runes_of_ascii "0'	; u128= ""a	b""  ; }
+    { } } options {packetx
+    = '\x00'	; u128= ""a	b""  ; }
 ")).
-Eval vm_compute in ("<<<M497>>>" ++ check (runes_of_ascii "packet uint8x
-{ match pack
+Eval vm_compute in ("<<<M402>>>" ++ check (runes_of_ascii "packet uint8x
+match { pack
     as msg_type	{
     0123456789 :	float
 }
@@ -1160,276 +847,248 @@ Eval vm_compute in ("<<<M497>>>" ++ check (runes_of_ascii "packet uint8x
 } packet //	t
 a1
     { } options {packetx
-    '\x00' =	; u128= ""a	b""  ; }
+    = '\x00'	; u128= ""a	b""  ; }
 ")).
-Eval vm_compute in ("<<<M272>>>" ++ check (runes_of_ascii "packet _x	{ } packet BodyLength { int64
-Packet
-@lengthOf( float ),
-options1 /// triple
-{rootA x	, u8
-Packet @calculatedFrom( """ ++ [28040; 24687]%N ++ runes_of_ascii """) `it's`  ,
-} , }")).
-Eval vm_compute in ("<<<M674>>>" ++ check (runes_of_ascii "// @lengthOf(
-packet i8i8 { { u128 o , }
-options { MetaDataX = true;
-    BodyLength =""packet"" x_y_z= 007
-crc //x
-= ""abc"" ;
-    msg_type =
-i16 }")).
-Eval vm_compute in ("<<<M681>>>" ++ check (runes_of_ascii "// @lengthOf(
+Eval vm_compute in ("<<<M1623>>>" ++ check (runes_of_ascii "
+packet
+string_
+{  @lengthOf(  float
+
+    )  // @lengthOf(
+
+BodyLength
+	{
+match uint8x
+
+    as  i64_
+	{0123456789
+	:
+	As
+
+    ,}
+
+,
+
+}
+    ,}
+
+")).
+Eval vm_compute in ("<<<M652>>>" ++ check (runes_of_ascii "// @lengthOf(
 packet i8i8 { u128 o , }
 options { MetaDataX = true;
     BodyLength =""packet"" x_y_z= 007
-crc //x
-= ""abc"" ;
-    msg_type i16
-= }")).
-Eval vm_compute in ("<<<M669>>>" ++ check (runes_of_ascii "// @lengthOf(
-packet i8i8 {  o , }
-options { MetaDataX = true;
-    BodyLength =""packet"" x_y_z= 007
-crc //x
+crc crc //x
 = ""abc"" ;
     msg_type =
 i16 }")).
-Eval vm_compute in ("<<<M1421>>>" ++ check (runes_of_ascii "
-packet
-
-    A  {match
-
-    k
-    as
-
-    n
-    { [
-1	, 
-22, 
-""c c""
-    ,
-4,
-
-    5
-, ""f"" 
-,7
-,	8]	: B
-    2 :C  }
-    ,  }")).
-Eval vm_compute in ("<<<M1540>>>" ++ check (runes_of_ascii "
-packet	A	{ match
-    k 
-as n
-
-    {
-    [
-""a"" 
-,
-    22
-
-    ,
-
-    ""c c"",
-4
-	]
-
-:
-	B
-
-    2
-:C
-
-    } ,
-    }
-")).
-Eval vm_compute in ("<<<M970>>>" ++ check (runes_of_ascii "packet A {
-    match k as n {
-        ""x\
-y"" : B,
-        [""x\
-y"", 1] : C,
-        [1,2,3,4,5,""x\
-y""] : D,
-    },
-}")).
-Eval vm_compute in ("<<<M1173>>>" ++ check (runes_of_ascii "MetaData leftPad { chars MetaDataX , } packet repeatCount { char[ 255 ] uint8x `" ++ [233]%N ++ runes_of_ascii "` , // c
-} MetaData pack { As Foo , }")).
-Eval vm_compute in ("<<<M967>>>" ++ check (runes_of_ascii "packet A {
-    match k as n {
-        ""x\
-y"" : B,
-        [""x\
-y"", 1] : C,
-        [1,2,3,4,5,""x\
-y""] : D,
-    },
-}")).
-Eval vm_compute in ("<<<M1502>>>" ++ check (runes_of_ascii "
-packet
-    A {
-match k as
-
-    n { 
-[
-
-1 ,
-22 ,007 
-,
-	4
-	, 
-5
-
-, 66 ]  :  B ,
-
-    2
-	:  C}
-    , }
-
-")).
-Eval vm_compute in ("<<<M926>>>" ++ check (runes_of_ascii "packet A {
-    Inner {
-        u8 x `a
-b`,
-        Deep {
-            u8 y `a
-b`,
-        },
-    },
-}")).
-Eval vm_compute in ("<<<M899>>>" ++ check (runes_of_ascii "packet A {
-  match k as n {
-    [1, 22, ""c c"", 4, 5, ""f"", 7, 8, ""i"", 10, 11] : B,
-    2 : C
-  },
-}")).
-Eval vm_compute in ("<<<M610>>>" ++ check (runes_of_ascii "
-packet
-    asx {match u128 as lengthOf
-{
-//	t
-// `tick` ""quote"" 'q'
-255 : x repeat
-    } ,	}")).
-Eval vm_compute in ("<<<M603>>>" ++ check (runes_of_ascii "
-packet
-    asx {match u128 as lengthOf
-{
-//	t
-// `tick` ""quote"" 'q'
-255 : x x ,
-    } ,	}")).
-Eval vm_compute in ("<<<M574>>>" ++ check (runes_of_ascii "
-packet
-    asx {match as u128 lengthOf
-{
-//	t
-// `tick` ""quote"" 'q'
-255 : x ,
-    } ,	}")).
-Eval vm_compute in ("<<<M643>>>" ++ check (runes_of_ascii "
-packet
-    asx {match x" ++ [178]%N ++ runes_of_ascii " as lengthOf
-{
-//	t
-// `tick` ""quote"" 'q'
-255 : x ,
-    } ,	}")).
-Eval vm_compute in ("<<<M866>>>" ++ check (runes_of_ascii "packet A {
-  match k as n {
-    [1, 22, 007, 4, 5, 66, 7, 8, 9] : B
-    2 : C
-  },
-}")).
-Eval vm_compute in ("<<<M1094>>>" ++ check (runes_of_ascii "packet A { u16 // a
- len // b
- @lengthOf( // c
- body // d
- ) // e
- `d` // f
- , }")).
-Eval vm_compute in ("<<<M1835>>>" ++ check (runes_of_ascii "packet A {
-    match k as n {
-        [1, ""bb""] : B,
-        2 : C,
-    },
-}")).
-Eval vm_compute in ("<<<M1762>>>" ++ check (runes_of_ascii "  options {  // " ++ [128512]%N ++ runes_of_ascii " emoji
-
-	Packet = // `tick` ""quote"" 'q'
-
-char[
-3 ]
-
+Eval vm_compute in ("<<<M395>>>" ++ check (runes_of_ascii "packet 
+{ match pack
+    as msg_type	{
+    0123456789 :	float
 }
+,
+} packet //	t
+a1
+    { } options {packetx
+    = '\x00'	; u128= ""a	b""  ; }
 ")).
-Eval vm_compute in ("<<<M796>>>" ++ check (runes_of_ascii "packet A {
-  match k as n {
-    [1, 22, ""c c""] : B
-    2 : C
-  },
-}")).
-Eval vm_compute in ("<<<M783>>>" ++ check (runes_of_ascii "packet A {
-  match k as n {
-    [1, ""bb""] : B
-    2 : C
-  },
-}")).
-Eval vm_compute in ("<<<M1701>>>" ++ check (runes_of_ascii "MetaData M {
-    u8 x `
-        x`,
-    T t `
-        x`,
-}")).
-Eval vm_compute in ("<<<M1093>>>" ++ check (runes_of_ascii "packet A { repeat // a
- B // b
- b // c
- `d` // e
- , }")).
-Eval vm_compute in ("<<<M181>>>" ++ check (runes_of_ascii "options{ packetx=// " ++ [27880; 37322]%N ++ runes_of_ascii "
-string Logon // " ++ [27880; 37322]%N ++ runes_of_ascii "
-=  int8}")).
-Eval vm_compute in ("<<<M1445>>>" ++ check (runes_of_ascii "
-options { 
-x
-= ""{,}""matchKey
-=
-    true;
-}
+Eval vm_compute in ("<<<M137>>>" ++ check (runes_of_ascii "
+packet u128//x
+{ @calculatedFrom(  ""x y""
+    ) // `tick` ""quote"" 'q'
+@rightPad (  ' ') char[ 42 ]  Header
+    @calculatedFrom( ""abc"" ),  }
 
 ")).
-Eval vm_compute in ("<<<M772>>>" ++ check (runes_of_ascii "false int8 uint64 @lengthOf( , @leftPad :")).
-Eval vm_compute in ("<<<M1665>>>" ++ check (runes_of_ascii "options
-{ Foo
-=
-0123456789
-	;
+Eval vm_compute in ("<<<M329>>>" ++ check (runes_of_ascii "  packet calculatedFrom
+{ uint8x {body `line1
+line2`
+, string crc
+@lengthOf(uint8x// " ++ [128512]%N ++ runes_of_ascii " emoji
+) , char[]As@lengthOf(	Pad )
+    , } , }
+")).
+Eval vm_compute in ("<<<M1691>>>" ++ check (runes_of_ascii "// top
+root packet P {
+    // c3
+    u8 s_u8,// c6
+    repeat u8 r_u8,
+    // c10
+    u16 b_len,// c13a
+    // c13b
+}// c14a
+// c14b")).
+Eval vm_compute in ("<<<M1934>>>" ++ check (runes_of_ascii "
+
+  packet u 
+{
+
+    @tag(
+
+10// a // b
+  )  tag
+@lengthOf(
+    A 
+
+// " ++ [128512]%N ++ runes_of_ascii " emoji
+// a // b
+    )
+    ,  repeat options1, }")).
+Eval vm_compute in ("<<<M1147>>>" ++ check (runes_of_ascii "MetaData leftPad { // c
+chars MetaDataX , } packet repeatCount { char[ 255 ] uint8x `" ++ [233]%N ++ runes_of_ascii "` , } MetaData pack { As Foo , }")).
+Eval vm_compute in ("<<<M1179>>>" ++ check (runes_of_ascii "MetaData leftPad { chars MetaDataX , } packet repeatCount { char[ 255 ] uint8x `" ++ [233]%N ++ runes_of_ascii "` , } MetaData pack // c
+{ As Foo , }")).
+Eval vm_compute in ("<<<M1424>>>" ++ check (runes_of_ascii "
+packet B
+
+    {u8
+a  , string 
+s
+,} root
+	packet
+
+P 
+{
+	u16 L
+	@lengthOf(  B
+
+    )  , B  ,
+
+u8
+    t ,
 	}
 ")).
-Eval vm_compute in ("<<<M1549>>>" ++ check (runes_of_ascii "packet A {
-    u8 x `d `,// c 
+Eval vm_compute in ("<<<M902>>>" ++ check (runes_of_ascii "packet A {
+  match k as n {
+    [""a"", ""bb"", 007, ""d"", ""e"", 66, ""g"", ""h"", 9, ""j"", ""k""] : B
+    2 : C
+  },
 }")).
-Eval vm_compute in ("<<<M1033>>>" ++ check (runes_of_ascii "packet A {
- u8 x `d" ++ [11]%N ++ runes_of_ascii "`, // c" ++ [11]%N ++ runes_of_ascii "
+Eval vm_compute in ("<<<M889>>>" ++ check (runes_of_ascii "packet A {
+  match k as n {
+    [""a"", ""bb"", 007, ""d"", ""e"", 66, ""g"", ""h"", 9, ""j""] : B
+    2 : C
+  },
 }")).
-Eval vm_compute in ("<<<M1815>>>" ++ check (runes_of_ascii "// " ++ [128512]%N ++ runes_of_ascii " emoji
-MetaData crc {
+Eval vm_compute in ("<<<M904>>>" ++ check (runes_of_ascii "packet A {
+  match k as n {
+    [1, 22, 007, 4, 5, 66, 7, 8, 9, 10, 11, 12] : B,
+    2 : C
+  },
 }")).
-Eval vm_compute in ("<<<M1922>>>" ++ check (runes_of_ascii "
+Eval vm_compute in ("<<<M593>>>" ++ check (runes_of_ascii "
 packet
-	A	{	// a
+    asx {match u128 as lengthOf
+{
+//	t
+// `tick` ""quote"" 'q'
+255 255 : x ,
+    } ,	}")).
+Eval vm_compute in ("<<<M682>>>" ++ check (runes_of_ascii "// @lengthOf(
+packet i8i8 { u128 o , }
+options { MetaDataX = true;
+    BodyLength =""packet""")).
+Eval vm_compute in ("<<<M614>>>" ++ check (runes_of_ascii "
+packet
+    asx {match u128 as lengthOf
+{
+//	t
+// `tick` ""quote"" 'q'
+255 : x ,
+    , }	}")).
+Eval vm_compute in ("<<<M557>>>" ++ check (runes_of_ascii "
+packet
+     {match u128 as lengthOf
+{
+//	t
+// `tick` ""quote"" 'q'
+255 : x ,
+    } ,	}")).
+Eval vm_compute in ("<<<M647>>>" ++ check (runes_of_ascii "// @lengthOf(
+packet i8i8 { u128 o , }
+options { MetaDataX = true;
+    BodyLength =")).
+Eval vm_compute in ("<<<M839>>>" ++ check (runes_of_ascii "packet A {
+  match k as n {
+    [1, 22, 007, 4, 5, 66, 7] : B,
+    2 : C
+  },
+}")).
+Eval vm_compute in ("<<<M827>>>" ++ check (runes_of_ascii "packet A {
+  match k as n {
+    [1, 22, 007, 4, 5, 66] : B
+    2 : C
+  },
+}")).
+Eval vm_compute in ("<<<M1475>>>" ++ check (runes_of_ascii "// top
+root packet P {
+    // c3
+    repeat char cs,
+    u8 x,
+}
+// c11")).
+Eval vm_compute in ("<<<M787>>>" ++ check (runes_of_ascii "packet A {
+  match k as n {
+    [1, 22, 007] : B,
+    2 : C
+  },
+}")).
+Eval vm_compute in ("<<<M88>>>" ++ check (runes_of_ascii "options// @lengthOf(
+{a1 = 65535
+// `tick` ""quote"" 'q'
+// c
+}")).
+Eval vm_compute in ("<<<M1922>>>" ++ check (runes_of_ascii "// top
+root packet P {
+    // c3
+    string s,
+    // c6
+}")).
+Eval vm_compute in ("<<<M1198>>>" ++ check (runes_of_ascii "
+// c
+packet body { i32 f32a `{ , }` , } options { }")).
+Eval vm_compute in ("<<<M1079>>>" ++ check (runes_of_ascii "packet A { u8 x, } // a
+// b
+packet B {} // c
+// d")).
+Eval vm_compute in ("<<<M1737>>>" ++ check (runes_of_ascii "options {
+    len = ""packet""
+    int = ""abc""
+}")).
+Eval vm_compute in ("<<<M940>>>" ++ check (runes_of_ascii "root packet A {
+    u8 x `a
+    b
+  c`,
+}")).
+Eval vm_compute in ("<<<M1699>>>" ++ check (runes_of_ascii "packet A {
+    u8 x,// c
+    u8 y,
+}")).
+Eval vm_compute in ("<<<M1833>>>" ++ check (runes_of_ascii "packet A {
+    u8 x `d" ++ [8202]%N ++ runes_of_ascii "`,// c" ++ [8202]%N ++ runes_of_ascii "
+}")).
+Eval vm_compute in ("<<<M1053>>>" ++ check (runes_of_ascii "packet A {
+ u8 x `d" ++ [65279]%N ++ runes_of_ascii "`, // c" ++ [65279]%N ++ runes_of_ascii "
+}")).
+Eval vm_compute in ("<<<M1588>>>" ++ check (runes_of_ascii "
+MetaData tag
+{  // c
 
 }
 ")).
-Eval vm_compute in ("<<<M1591>>>" ++ check (runes_of_ascii "//	t
-options {
-}// c")).
-Eval vm_compute in ("<<<M991>>>" ++ check (runes_of_ascii "packet A {
-}
-// c" ++ [133]%N)).
-Eval vm_compute in ("<<<M1233>>>" ++ check (runes_of_ascii "packet x { }
-// c
+Eval vm_compute in ("<<<M63>>>" ++ check (runes_of_ascii "packet i64_
+    { }
+
 ")).
-Eval vm_compute in ("<<<M1606>>>" ++ check (runes_of_ascii "// c
-packet x {
+Eval vm_compute in ("<<<M170>>>" ++ check (runes_of_ascii "packet pack
+{
+} 	 ")).
+Eval vm_compute in ("<<<M1002>>>" ++ check (runes_of_ascii "// c" ++ [8192]%N ++ runes_of_ascii "
+packet A {
 }")).
-Eval vm_compute in ("<<<M749>>>" ++ check ([1; 65533]%N ++ runes_of_ascii ">&EQX" ++ [65533]%N ++ runes_of_ascii "P" ++ [65533; 65533]%N)).
-Eval vm_compute in ("<<<M1050>>>" ++ check (runes_of_ascii "// c" ++ [65279]%N)).
+Eval vm_compute in ("<<<M571>>>" ++ check (runes_of_ascii "
+packet
+    asx {")).
+Eval vm_compute in ("<<<M356>>>" ++ check (runes_of_ascii "packet uint8x {}")).
+Eval vm_compute in ("<<<M255>>>" ++ check (runes_of_ascii " /// triple")).
+Eval vm_compute in ("<<<M1045>>>" ++ check (runes_of_ascii "// c" ++ [8203]%N)).
